@@ -97,7 +97,7 @@ func where() (int64, bool) {
 }
 
 type probe struct {
-	loopGid  atomic.Int64 // 0 until the reference goroutine is known
+	loopGid  atomic.Int64             // 0 until the reference goroutine is known
 	offLoop  [nKinds + 1]atomic.Int64 // per kind; last slot: any other entry (Started, setup ...)
 	inflight atomic.Int32
 	maxIn    atomic.Int32
@@ -138,6 +138,13 @@ func (p *probe) enter(kind int) func() {
 
 type setupMsg struct{ ack chan struct{} }
 
+// pingMsg is answered with the actor instance that currently serves the PID
+type pingMsg struct{ ack chan *hsvc }
+
+// crashMsg makes the handler panic: the root supervisor restarts the actor (protoactor calls
+// the props' producer again for the new incarnation)
+type crashMsg struct{}
+
 type hsvc struct {
 	*ns.NodeService
 	p          *probe
@@ -150,6 +157,12 @@ func (h *hsvc) Receive(ctx actor.Context) {
 	case *messages.ServiceRequest, *messages.ServiceResponse:
 		// instrumented at ReceiveRequest / in the response callback
 		h.NodeService.Receive(ctx)
+	case *pingMsg:
+		func() { defer h.p.enter(-1)() }()
+		m.ack <- h
+	case *crashMsg:
+		defer h.p.enter(-1)()
+		panic("c04: injected handler fault")
 	case *setupMsg:
 		func() {
 			defer h.p.enter(-1)()
@@ -199,8 +212,8 @@ func (p *peerSvc) ReceiveRequest(ctx actor.Context, request *messages.ServiceReq
 type sessHandler struct{ p *probe }
 
 func (s *sessHandler) Process(fs *cs.FrontSession, msg *msgs.ClientMsg) { defer s.p.enter(kSessMsg)() }
-func (s *sessHandler) OnSessionAdd(fs *cs.FrontSession)                   { defer s.p.enter(kSessAdd)() }
-func (s *sessHandler) OnSessionRemove(fs *cs.FrontSession)                { defer s.p.enter(kSessRemove)() }
+func (s *sessHandler) OnSessionAdd(fs *cs.FrontSession)                 { defer s.p.enter(kSessAdd)() }
+func (s *sessHandler) OnSessionRemove(fs *cs.FrontSession)              { defer s.p.enter(kSessRemove)() }
 
 type fakeSession struct {
 	id     atomic.Uint32
@@ -254,7 +267,19 @@ func cfgn(cfg []int64, i int) int {
 // runStress executes one measurement and returns the EStress term.
 //
 //	cfg = [peers, reqPerPeer, notifyPerPeer, responses, timeouts, timerProducers, perTimerProducer,
-//	       posters, perPoster, publishers, localPerPublisher, globalPerPublisher, conns, msgsPerConn]
+//	       posters, perPoster, publishers, localPerPublisher, globalPerPublisher, conns, msgsPerConn,
+//	       mode, ovLocal, ovGlobal, ovPost, ovTimer, ovSessMsg, ovRequest]
+//
+// mode 1: before anything else the service actor is crashed once (a message whose handler
+// panics) and restarted by its supervisor.  mode 2: the same props is spawned a second time;
+// both actors are served by the one run service of the props and both receive requests.
+//
+// ov*: an overflow phase comes first.  The service is held inside a posted closure; foreign
+// goroutines then produce that many items of the kind - more than the bounded queue holds
+// (event queue, scheduler queue, timer queue: 999; requests pile up in the mailbox).  On a
+// full queue producers must block (GlobalEventCenter.Publish drops instead), nothing may run
+// anywhere but on the held loop goroutine; then the service is released and everything
+// accepted must be executed.
 func runStress(seed int64, cfg []int64) any {
 	nPeers, reqPer, notPer := cfgn(cfg, 0), cfgn(cfg, 1), cfgn(cfg, 2)
 	nResp, nTimeout := cfgn(cfg, 3), cfgn(cfg, 4)
@@ -262,6 +287,12 @@ func runStress(seed int64, cfg []int64) any {
 	nPosters, perPoster := cfgn(cfg, 7), cfgn(cfg, 8)
 	nPub, perLocal, perGlobal := cfgn(cfg, 9), cfgn(cfg, 10), cfgn(cfg, 11)
 	nConn, perConn := cfgn(cfg, 12), cfgn(cfg, 13)
+	mode := cfgn(cfg, 14)
+	ovLocal, ovGlobal, ovPost := cfgn(cfg, 15), cfgn(cfg, 16), cfgn(cfg, 17)
+	ovTimer, ovSess, ovReq := cfgn(cfg, 18), cfgn(cfg, 19), cfgn(cfg, 20)
+	if ovLocal > 0 {
+		ovGlobal = 0 // one queue: a deterministic drop count needs it to hold one kind only
+	}
 
 	s := system()
 	serial++
@@ -270,17 +301,35 @@ func runStress(seed int64, cfg []int64) any {
 	common.VerifSetNowMs(clock0)
 	defer common.VerifSetNowMs(clock0)
 
-	var svc *hsvc
+	var instMu sync.Mutex
+	incarnations := 0
 	sprops, _ := as.NewServicePropsWithNewScheDisp(func() actor.Actor {
 		h := &hsvc{NodeService: ns.NewService(), p: p, localName: tag + "-local", globalName: tag + "-global"}
 		h.NodeService.Service.InitReqReceiver(h)
-		svc = h
+		instMu.Lock()
+		incarnations++
+		instMu.Unlock()
 		return h
 	}, "")
 	svcPID, err := s.Root.SpawnNamed(sprops, tag+"-svc")
 	if err != nil {
 		panic(err)
 	}
+	ping := func(pid *actor.PID) *hsvc {
+		m := &pingMsg{ack: make(chan *hsvc, 1)}
+		s.Root.Send(pid, m)
+		select {
+		case h := <-m.ack:
+			return h
+		case <-time.After(5 * time.Second):
+			return nil
+		}
+	}
+	svc := ping(svcPID)
+	if svc == nil {
+		panic("c04: service did not start")
+	}
+	svcTargets := []*actor.PID{svcPID}
 	var peerPIDs []*actor.PID
 	var peers []*peerSvc
 	spawnPeer := func(name string, answer bool) (*actor.PID, *peerSvc) {
@@ -310,11 +359,12 @@ func runStress(seed int64, cfg []int64) any {
 		pid, ps := spawnPeer(fmt.Sprintf("%s-peer%d", tag, i), true)
 		peerPIDs, peers = append(peerPIDs, pid), append(peers, ps)
 	}
+	rs := svc.GetRunService()
 	stopAll := func() {
-		for _, pid := range append([]*actor.PID{svcPID, echoPID, holePID}, peerPIDs...) {
+		for _, pid := range append(append([]*actor.PID{echoPID, holePID}, svcTargets...), peerPIDs...) {
 			s.Root.StopFuture(pid).Wait()
 		}
-		svc.GetRunService().Stop()
+		rs.Stop()
 		echo.GetRunService().Stop()
 		hole.GetRunService().Stop()
 		for _, ps := range peers {
@@ -323,10 +373,39 @@ func runStress(seed int64, cfg []int64) any {
 	}
 	defer stopAll()
 
+	switch mode {
+	case 1:
+		// a handler fault: the supervisor restarts the actor, the producer runs again
+		s.Root.Send(svcPID, &crashMsg{})
+		for t0 := time.Now(); ; time.Sleep(time.Millisecond) {
+			instMu.Lock()
+			n := incarnations
+			instMu.Unlock()
+			if n >= 2 {
+				break
+			}
+			if time.Since(t0) > 5*time.Second {
+				return stressTerm(false, p)
+			}
+		}
+		if svc = ping(svcPID); svc == nil {
+			return stressTerm(false, p)
+		}
+	case 2:
+		pid2, err := s.Root.SpawnNamed(sprops, tag+"-svc2")
+		if err != nil {
+			panic(err)
+		}
+		svcTargets = append(svcTargets, pid2)
+		if ping(pid2) == nil {
+			return stressTerm(false, p)
+		}
+	}
+
 	// reference goroutine: the one that runs HandleOnce of the service's selector
 	gidCh := make(chan int64, 1)
 	tok := make(chan int, 1)
-	svc.GetRunService().GetSelector().AddSelector("c04-ref", sche.NewFuncSelector(reflect.ValueOf(tok),
+	rs.GetSelector().AddSelector("c04-ref", sche.NewFuncSelector(reflect.ValueOf(tok),
 		func(v reflect.Value, recvOk bool) {
 			id, _ := where()
 			gidCh <- id
@@ -348,7 +427,128 @@ func runStress(seed int64, cfg []int64) any {
 	}
 	sessions := impls.NewClientSessions(tag + "-front")
 	sessions.SetHandler(&sessHandler{p})
-	impl := pomelo.NewSessionsImpl(svc.GetRunService().GetScheduler(), sessions)
+	impl := pomelo.NewSessionsImpl(rs.GetScheduler(), sessions)
+
+	tm := rs.GetTimerMgr()
+	ec := rs.GetEventCenter()
+	// events GlobalEventCenter.Publish will drop on the full queue while the service is held
+	globalDropped := int64(0)
+	if ovGlobal > sche.QueueSize {
+		globalDropped = int64(ovGlobal - sche.QueueSize) // chanEvent has the same capacity, 999
+	}
+	caughtUp := func() bool {
+		for k := 0; k < nKinds; k++ {
+			want := p.prod[k].Load()
+			if k == kGlobalEvent {
+				want -= globalDropped
+			}
+			if p.exec[k].Load() < want {
+				return false
+			}
+		}
+		return true
+	}
+	waitCaughtUp := func(deadline <-chan time.Time) bool {
+		for !caughtUp() {
+			select {
+			case <-deadline:
+				return false
+			case <-time.After(2 * time.Millisecond):
+			}
+		}
+		return true
+	}
+
+	if ovLocal+ovGlobal+ovPost+ovTimer+ovSess+ovReq > 0 {
+		gate, inside := make(chan struct{}), make(chan struct{})
+		svc.Post(func() {
+			defer p.enter(-1)()
+			close(inside)
+			<-gate // the service is busy: nothing else of it may run meanwhile
+		})
+		select {
+		case <-inside:
+		case <-time.After(5 * time.Second):
+			return stressTerm(false, p)
+		}
+		var owg sync.WaitGroup
+		burst := func(n, workers int, f func(i int)) {
+			for w := 0; w < workers; w++ {
+				lo, hi := n*w/workers, n*(w+1)/workers
+				owg.Add(1)
+				go func() {
+					defer owg.Done()
+					for i := lo; i < hi; i++ {
+						f(i)
+					}
+				}()
+			}
+		}
+		burst(ovLocal, 2, func(i int) {
+			ec.Publish(svc.localName, i)
+			p.prod[kLocalEvent].Add(1)
+		})
+		burst(ovGlobal, 1, func(i int) {
+			event.GetGlobalEC().Publish(svc.globalName, i)
+			p.prod[kGlobalEvent].Add(1)
+		})
+		burst(ovPost, 2, func(i int) {
+			svc.Post(func() { defer p.enter(kPost)() })
+			p.prod[kPost].Add(1)
+		})
+		burst(ovTimer, 1, func(i int) {
+			tm.After(time.Millisecond, func(args ...interface{}) { defer p.enter(kTimer)() })
+			p.prod[kTimer].Add(1)
+		})
+		if ovSess > 0 {
+			fs := &fakeSession{}
+			burst(ovSess+2, 1, func(j int) {
+				switch {
+				case j == 0:
+					impl.OnSessionCreate(fs)
+					p.prod[kSessAdd].Add(1)
+				case j == ovSess+1:
+					impl.OnSessionClose(fs)
+					p.prod[kSessRemove].Add(1)
+				default:
+					impl.ProcessMessage(fs, &message.Message{Type: message.Request, ID: uint(j), Route: "x.y.z"})
+					p.prod[kSessMsg].Add(1)
+				}
+			})
+		}
+		burst(ovReq, 1, func(i int) {
+			target := svcTargets[i%len(svcTargets)]
+			echo.Post(func() { echo.Request(target, &messages.TestHello{I: 6}, func(error, interface{}) {}) })
+			p.prod[kRequest].Add(1)
+		})
+		// hold until every producer is done or blocked on its full queue (no progress for 40 ms)
+		total := func() (n int64) {
+			for k := 0; k < nKinds; k++ {
+				n += p.prod[k].Load()
+			}
+			return
+		}
+		last, since := total(), time.Now()
+		for t0 := time.Now(); time.Since(t0) < 5*time.Second; time.Sleep(5 * time.Millisecond) {
+			if n := total(); n != last {
+				last, since = n, time.Now()
+			} else if time.Since(since) > 40*time.Millisecond && time.Since(t0) > 60*time.Millisecond {
+				break
+			}
+		}
+		close(gate)
+		ovDone := make(chan struct{})
+		go func() { owg.Wait(); close(ovDone) }()
+		dl := time.After(stressTimeout)
+		select {
+		case <-ovDone:
+		case <-dl:
+			return stressTerm(false, p) // a producer is still blocked after the release
+		}
+		if !waitCaughtUp(dl) {
+			return stressTerm(p.maxIn.Load() <= 1, p)
+		}
+	}
 
 	// requests that will time out go first, then the clock jumps; everything issued
 	// afterwards has its deadline 30 s after the jump
@@ -418,10 +618,12 @@ func runStress(seed int64, cfg []int64) any {
 		ps := peers[i]
 		producer(reqPer+notPer, func(r *rand.Rand, j int) {
 			if j < reqPer {
-				ps.Post(func() { ps.Request(svcPID, &messages.TestHello{I: 4}, func(error, interface{}) {}) })
+				target := svcTargets[j%len(svcTargets)]
+				ps.Post(func() { ps.Request(target, &messages.TestHello{I: 4}, func(error, interface{}) {}) })
 				p.prod[kRequest].Add(1)
 			} else {
-				ps.Post(func() { ps.Notify(svcPID, &messages.TestHello{I: 5}) })
+				target := svcTargets[j%len(svcTargets)]
+				ps.Post(func() { ps.Notify(target, &messages.TestHello{I: 5}) })
 				p.prod[kNotify].Add(1)
 			}
 		})
@@ -430,7 +632,6 @@ func runStress(seed int64, cfg []int64) any {
 		issue(echoPID)
 		p.prod[kResponse].Add(1)
 	})
-	tm := svc.GetRunService().GetTimerMgr()
 	for i := 0; i < nTimerProd; i++ {
 		producer(perTimer, func(r *rand.Rand, j int) {
 			tm.After(time.Duration(1+r.Intn(8))*time.Millisecond, func(args ...interface{}) { defer p.enter(kTimer)() })
@@ -443,7 +644,6 @@ func runStress(seed int64, cfg []int64) any {
 			p.prod[kPost].Add(1)
 		})
 	}
-	ec := svc.GetRunService().GetEventCenter()
 	for i := 0; i < nPub; i++ {
 		producer(perLocal, func(r *rand.Rand, j int) {
 			ec.Publish(svc.localName, j)
@@ -479,21 +679,7 @@ func runStress(seed int64, cfg []int64) any {
 	case <-deadline:
 		return stressTerm(false, p) // a producer is stuck
 	}
-	for done := false; !done; {
-		done = true
-		for k := 0; k < nKinds; k++ {
-			if p.exec[k].Load() < p.prod[k].Load() {
-				done = false
-			}
-		}
-		if !done {
-			select {
-			case <-deadline:
-				done = true
-			case <-time.After(2 * time.Millisecond):
-			}
-		}
-	}
+	waitCaughtUp(deadline)
 	// a little grace: anything executed twice or late would show up as exec > prod
 	time.Sleep(5 * time.Millisecond)
 	return stressTerm(p.maxIn.Load() <= 1, p)
